@@ -75,6 +75,9 @@ func checkGuards(c *Ctx, p *Prog, rule string, guards []*Guard) {
 			bad := false
 			for _, a := range perFn[fn] {
 				held := ls.Held(a.Instr)
+				if atomicFieldAccess(a.Instr) {
+					continue // the field became a sync/atomic value that is only used through its methods
+				}
 				if !held[g.Lock] && !(held[g.Lock+"(R)"] && readOnlyAccess(a.Instr)) {
 					c.Bad(rule, key, p, a.Instr.Pos(), fmt.Sprintf("%s (%s) without %s held (held: %s); %s", a.What, a.Instr.String(), g.Lock, ls.Held(a.Instr), g.Why))
 					bad = true
@@ -497,4 +500,50 @@ func ruleNewIDShape(c *Ctx, p *Prog, rule string) {
 		small := Calls(f, "(*math/rand.Rand).Intn", "(*math/rand.Rand).Int31", "(*math/rand.Rand).Int31n", "(*math/rand.Rand).Int63n", "(*math/rand.Rand).Uint32", "math/rand.Intn", "math/rand.Int")
 		c.Check(rule, "newID:63-bit-draw", p, f.Pos(), len(draws) == 1 && len(small) == 0, "one full-width draw from the proxy's generator per ID", "the ID is no longer derived from one full-width (≥63 bit) draw of the proxy's generator")
 	}
+}
+
+// atomicFieldAccess: the access takes the address of a field whose type is one of sync/atomic's
+// value types (atomic.Pointer[T], atomic.Value, atomic.Int64, …) and uses it only as the receiver
+// of that type's methods: such a field synchronises itself.
+func atomicFieldAccess(i ssa.Instruction) bool {
+	if ci, isCall := i.(ssa.CallInstruction); isCall {
+		// the method call on such a field
+		if callee := ci.Common().StaticCallee(); callee != nil && callee.Signature.Recv() != nil && len(ci.Common().Args) > 0 {
+			if fa, isFA := ci.Common().Args[0].(*ssa.FieldAddr); isFA {
+				return atomicFieldAccess(fa)
+			}
+		}
+		return false
+	}
+	fa, ok := i.(*ssa.FieldAddr)
+	if !ok {
+		return false
+	}
+	pt, ok := fa.Type().Underlying().(*types.Pointer)
+	if !ok {
+		return false
+	}
+	nm, ok := pt.Elem().(*types.Named)
+	if !ok || nm.Obj().Pkg() == nil || nm.Obj().Pkg().Path() != "sync/atomic" {
+		return false
+	}
+	for _, r := range Refs(fa) {
+		switch x := r.(type) {
+		case *ssa.DebugRef:
+		case ssa.CallInstruction:
+			cc := x.Common()
+			callee := cc.StaticCallee()
+			if callee == nil || len(cc.Args) == 0 || cc.Args[0] != ssa.Value(fa) || callee.Signature.Recv() == nil {
+				return false
+			}
+			for _, a := range cc.Args[1:] {
+				if a == ssa.Value(fa) {
+					return false
+				}
+			}
+		default:
+			return false
+		}
+	}
+	return true
 }
